@@ -138,6 +138,27 @@ def gen_ops_spec(rng, k):
     return spec
 
 
+def gen_edges_spec(rng, k):
+    modes = [("tree", "none"), ("none", "tree"), ("tree", "tree"), ("none", "linetree"), ("basic", "tree")]
+    g, c = modes[k % len(modes)]
+    boundary = ["periodic", "open", "shear", "none"][(k // 2) % 4]
+    n = [(1, 1, 1), (2, 1, 1), (1, 2, 1), (2, 2, 2), (3, 2, 1), (8, 8, 8), (1, 1, 64), (16, 1, 1)][k % 8]
+    spec = {"kind": "edges", "rs": rng.choice([1.0, 2.0, 0.5, 0.125, 4.0]), "n": list(n), "boundary": boundary, "gravity": g, "collision": c,
+            "seed": rng.randrange(1 << 30), "dt": 0.01, "npts": rng.choice([8, 20, 40]), "moving": k % 3 != 0, "vel": rng.choice([0.1, 1.0, 7.0]),
+            # the closed upper border only without motion across it: moving lattices that contain both faces x=-L/2 and x=+L/2 produce pairs of
+            # particles one ulp apart after the periodic wrap = known finding tree:cell_centre_rounding (dedicated corner history)
+            "upper_border": k % 3 == 0}
+    if boundary == "none":
+        spec["vel"] = min(spec["vel"], 1.0)
+    if c != "none":
+        spec["radius"] = 1e-4 * spec["rs"]
+    if g != "none":
+        spec["softening"] = 0.05 * spec["rs"]
+    if boundary == "shear":
+        spec["omega"] = 1.0
+    return spec
+
+
 def corner_specs():
     out = []
     # (i) particle exactly on the upper box border, more than one root box: FIXED in /repo da62396 for exact root-cell
@@ -187,6 +208,17 @@ def corner_specs():
     out.append({"kind": "corner", "key": "tree:corner_control", "rs": 1.0, "n": [1, 1, 1], "boundary": "periodic", "gravity": "tree", "dt": 0.01, "steps": 0, "pts": [],
                 "ops": [["add", 1.0, 0.1, 0.1, 0.1], ["add", 1e-3, 0.3, -0.2, 0.25], ["add", 1e-3, -0.3, 0.2, -0.1], ["add", 1e-3, 0.45, 0.4, -0.4], ["step"], ["move_to_hel"], ["step"], ["move_to_com"], ["step"]],
                 "what": "move_to_hel / move_to_com with tree gravity, periodic box"})
+    # (vi) two particles moved onto the same coordinates, then the tree update: the re-insertion is refused (error message), the
+    #      particle is dropped, N and the tree stay consistent (fixed in /repo 950a4b2); pre/post record for the Coq update models
+    for rs_, n_ in [(1.0, [1, 1, 1]), (2.0, [2, 1, 1])]:
+        out.append({"kind": "corner", "key": "tree:refused_add_changes_N", "rs": rs_, "n": n_, "boundary": "periodic", "gravity": "tree", "dt": 0.01, "steps": 0, "pts": [],
+                    "ops": [["add", 1e-3, 0.1 * rs_, 0.2 * rs_, 0.05 * rs_], ["add", 1e-3, -0.3 * rs_, 0.1 * rs_, 0.2 * rs_], ["add", 1e-3, 0.15 * rs_, 0.22 * rs_, 0.07 * rs_],
+                            ["add", 1e-3, 0.35 * rs_, -0.4 * rs_, -0.3 * rs_], ["step"], ["coincide", 0, 2], ["update_capture", "expect_drop"], ["step"], ["step"]],
+                    "what": "two particles moved onto identical coordinates, then reb_simulation_update_tree"})
+    # (vii) two particles that start on opposite faces of a periodic box (same y, z, velocity) are one ulp apart after the wrap
+    out.append({"kind": "corner", "key": "tree:cell_centre_rounding", "rs": 1.0, "n": [1, 1, 1], "boundary": "periodic", "gravity": "tree", "dt": 0.01, "steps": 1,
+                "pts": [(0.5, 0.125, 0.25, 0.3), (-0.5, 0.125, 0.25, 0.3), (0.1, -0.2, 0.3, 0.3)],
+                "what": "periodic images x=-L/2 and x=+L/2 with equal y,z,v: one ulp apart after the wrap, cells as small as an ulp"})
     # controls: the same situations where the code is fine (must pass)
     out.append({"kind": "corner", "key": "tree:corner_control", "rs": 1.0, "n": [1, 1, 1], "boundary": "periodic", "gravity": "tree", "dt": 0.01, "steps": 2,
                 "pts": [(0.5, 0.1, 0.2), (0.3, 0.3, 0.3), (-0.2, 0.1, 0.1), (0.0, 0.0, 0.0), (0.25, 0.25, 0.25), (-0.5, -0.5, -0.5)],
@@ -419,7 +451,8 @@ def run(ctx):
     nbound = ctx.scale(60, 500)
     nrest = ctx.scale(84, 560)
     specs = [gen_tree_spec(rng, k) for k in range(ntree)] + [gen_boundary_spec(rng, k) for k in range(nbound)] + \
-            [gen_restore_spec(rng, k) for k in range(nrest)] + [gen_ops_spec(rng, k) for k in range(ctx.scale(72, 480))] + corner_specs()
+            [gen_restore_spec(rng, k) for k in range(nrest)] + [gen_ops_spec(rng, k) for k in range(ctx.scale(72, 480))] + \
+            [gen_edges_spec(rng, k) for k in range(ctx.scale(40, 320))] + corner_specs()
     if ctx.thorough:
         for s in specs:
             if s["kind"] == "tree":
@@ -485,7 +518,7 @@ def run(ctx):
                     L.gravity_dump_preorder(c, exp)
                     gcases.append("(gravF %s %s, %s)" % (parts, shape_term(c), vlib.flist([v for g in exp for v in g])))
         for u_ in res.get("upd", []):
-            if len(ucases) < ctx.scale(60, 400):
+            if len(ucases) < ctx.scale(60, 400) or spec["kind"] == "corner":
                 t = ucase_term(u_)
                 if t is not None:
                     t, pt_ = t
